@@ -252,7 +252,45 @@ var c07Values = map[string]func() interface{}{
 	"edge-null-source":    func() interface{} { return types.Edge{} },
 }
 
-var c07ValueNames = sortedKeys(c07Values)
+// c07CyclicValues: values reachable from themselves through every kind of reference the iterator follows
+// (marshaled with Iterator.RecursionSupport = true, the documented way to marshal them)
+type c07Cyc struct {
+	Name string
+	Next *c07Cyc
+	M    map[string]interface{}
+	L    []interface{}
+}
+
+var c07CyclicValues = map[string]func() interface{}{
+	"cyclic-map-self": func() interface{} { m := map[string]interface{}{"a": 1}; m["self"] = m; return m },
+	"cyclic-map-in-map": func() interface{} {
+		m := map[string]interface{}{}
+		inner := map[string]interface{}{"up": m}
+		m["down"] = inner
+		return m
+	},
+	"cyclic-slice-self": func() interface{} { s := make([]interface{}, 2); s[0] = 1; s[1] = s; return s },
+	"cyclic-pointer":    func() interface{} { a := &c07Cyc{Name: "a"}; a.Next = &c07Cyc{Name: "b", Next: a}; return a },
+	"cyclic-struct-map": func() interface{} {
+		a := &c07Cyc{Name: "a", M: map[string]interface{}{}}
+		a.M["me"] = a
+		a.M["m"] = a.M
+		return a
+	},
+	"cyclic-struct-slice":  func() interface{} { a := &c07Cyc{Name: "a"}; a.L = []interface{}{a, 1}; return a },
+	"cyclic-map-via-slice": func() interface{} { m := map[string]interface{}{}; m["l"] = []interface{}{m}; return m },
+	"shared-map-twice": func() interface{} {
+		m := map[string]int{"x": 1}
+		return []interface{}{m, m, map[string]interface{}{"m": m}}
+	},
+}
+
+var c07PlainValueNames = sortedKeys(c07Values)
+
+var c07ValueNames = func() []string {
+	names := sortedKeys(c07Values)
+	return append(names, sortedKeys(c07CyclicValues)...)
+}()
 
 func sortedKeys(m map[string]func() interface{}) []string {
 	out := make([]string, 0, len(m))
@@ -506,6 +544,10 @@ func c07Call(c *C07Case) func() {
 		var v interface{}
 		if c.Value == "gval" {
 			v = gen.Build(c.Type, c.Val).Interface()
+		} else if f := c07CyclicValues[c.Value]; f != nil {
+			// values that contain themselves are in the domain only with recursion support switched on
+			v = f()
+			cfg.Iterator.RecursionSupport = true
 		} else {
 			v = c07Values[c.Value]()
 		}
